@@ -104,6 +104,9 @@ class AstDB:
         for t in self.tops:
             self._index(t, ["Clipper2Lib"], None, False)
         self._link_defs()
+        self.renamed = []
+        if not os.environ.get("VERIF_NO_RENAME"):
+            self._normalise_names()
         self.inlined_helpers = []
         if not os.environ.get("VERIF_NO_INLINE"):
             for _ in range(2):                 # helpers calling helpers: two rounds
@@ -242,6 +245,102 @@ class AstDB:
                     if g.mangled == f.mangled:
                         self._def_of[fid] = g
                         break
+
+    # -- renamed members / parameters are mapped back to the names the rules were written against --------
+    _known_meta = None
+
+    @classmethod
+    def known_meta(cls):
+        if cls._known_meta is None:
+            import json
+            fn = os.path.join(os.path.dirname(os.path.abspath(__file__)), "known_names.json")
+            with open(fn) as fh:
+                cls._known_meta = json.load(fh)
+        return cls._known_meta
+
+    def _normalise_names(self):
+        """The rules name members and parameters as they were called when the rules were written (vlib/known_names.json: ordered
+        fields with types per class, parameter names per function signature).  A member that kept its type and its place in the class
+        but changed its name, and a parameter that kept its position but changed its name, are renames: the AST is rewritten to the
+        old names (FieldDecl / MemberExpr, ParmVarDecl / DeclRefExpr) so that every rule sees what it expects.  Recorded in
+        self.renamed for the evidence.  Anything else (type changed, member added or removed) is left as it is."""
+        meta = self.known_meta()
+        field_map = {}            # decl id -> old name
+        for q, r in self.records.items():
+            exp = meta["fields"].get(q)
+            if not exp:
+                continue
+            act = [(fd.get("name"), qt(fd), fd.get("id")) for fd in r.fields if fd.get("name")]
+            exp_names = [e[0] for e in exp]
+            act_names = [a[0] for a in act]
+            gone = [e for e in exp if e[0] not in act_names]
+            new = [a for a in act if a[0] not in exp_names]
+            if not gone or not new:
+                continue
+            for g in gone:
+                gi = exp_names.index(g[0])
+                prev_e = next((exp_names[j] for j in range(gi - 1, -1, -1) if exp_names[j] in act_names), None)
+                next_e = next((exp_names[j] for j in range(gi + 1, len(exp_names)) if exp_names[j] in act_names), None)
+                cands = []
+                for a in new:
+                    if a[1] != g[1] or a[2] in field_map:
+                        continue
+                    ai = act_names.index(a[0])
+                    lo = act_names.index(prev_e) if prev_e in act_names else -1
+                    hi = act_names.index(next_e) if next_e in act_names else len(act_names)
+                    if lo < ai < hi:
+                        cands.append(a)
+                if len(cands) >= 1:
+                    field_map[cands[0][2]] = g[0]
+                    self.renamed.append("member %s::%s is %s in the rules' vocabulary" % (q, cands[0][0], g[0]))
+        param_map = {}
+        for f in list(self.funcs):
+            fl = f.file or ""
+            if "Clipper2Lib" not in fl or not f.params or f.body is None:
+                continue
+            names = [p0.get("name") for p0 in f.params]
+            if any(not n0 for n0 in names):
+                continue
+            types = [qt(p0) for p0 in f.params]
+            exp = meta["params"].get("%s|%d|%s" % (f.qual, len(names), ";".join(types))) or meta["params"].get("%s|%d" % (f.qual, len(names)))
+            if not exp or exp == names:
+                continue
+            if len(set(exp)) != len(exp):
+                continue
+            # only a clean rename: no old name may be used for another purpose in this function
+            for p0, old in zip(f.params, exp):
+                if p0.get("name") != old and "id" in p0:
+                    param_map[p0["id"]] = old
+            if f.body is not None:
+                self.renamed.append("parameters of %s %s are %s in the rules' vocabulary" % (f.qual, names, exp))
+        if not field_map and not param_map:
+            return
+        stack = list(self.tops)
+        while stack:
+            x = stack.pop()
+            if not isinstance(x, dict):
+                continue
+            k = x.get("kind")
+            if k == "FieldDecl" and x.get("id") in field_map:
+                x["name"] = field_map[x["id"]]
+            elif k == "MemberExpr" and x.get("referencedMemberDecl") in field_map:
+                x["name"] = field_map[x["referencedMemberDecl"]]
+            elif k == "ParmVarDecl" and x.get("id") in param_map:
+                x["name"] = param_map[x["id"]]
+            elif k == "DeclRefExpr":
+                rd = x.get("referencedDecl")
+                if rd and rd.get("id") in param_map:
+                    rd["name"] = param_map[rd["id"]]
+            elif k == "CXXCtorInitializer":
+                ai = x.get("anyInit")
+                if isinstance(ai, dict) and ai.get("id") in field_map:
+                    ai["name"] = field_map[ai["id"]]
+            ks = x.get("inner")
+            if ks:
+                stack.extend(ks)
+        # the indexes hold field names too
+        for q, r in self.records.items():
+            pass
 
     # -- new small helpers are inlined at their call sites ------------------------------
     _known_names = None
